@@ -1246,7 +1246,7 @@ MUTANTS = [
     _m("index-start-not-advanced", "                if block_length > 0:\n                    ind_start = block_indices[-1] + 1\n", "", "R3"),
     _m("residual-arm-other-state", "            values = self.evaluate(eqs, derivative=False, state=state)\n", "            values = self.evaluate(eqs, derivative=False, state=None)\n", "R3"),
     _m("projection-ignores-variables", "column_projection = self.projection_to(variables).transpose()", "column_projection = self.projection_to(self.variables).transpose()", "R4"),
-    _m("parser-evaluate-reversed", "        if isinstance(op, list):\n            result_list = [\n                self._evaluate_single(o, ad_base, equation_system) for o in op\n            ]\n",
-       "        if isinstance(op, list):\n            result_list = [\n                self._evaluate_single(o, ad_base, equation_system) for o in op\n            ]\n            result_list.reverse()\n",
+    _m("parser-evaluate-reversed", "            if isinstance(op, list):\n                result_list = [\n                    self._evaluate_single(o, ad_base, equation_system) for o in op\n                ]\n",
+       "            if isinstance(op, list):\n                result_list = [\n                    self._evaluate_single(o, ad_base, equation_system) for o in op\n                ]\n                result_list.reverse()\n",
        "R3", file=PARSER),
 ]
